@@ -21,6 +21,7 @@ import (
 	"time"
 
 	mux "github.com/cbeuw/Cloak/internal/multiplex"
+	"github.com/cbeuw/Cloak/internal/server"
 	"github.com/juju/ratelimit"
 )
 
@@ -302,6 +303,7 @@ type c19case struct {
 	nconn     int
 	nstream   int
 	unordered bool
+	viaPanel  bool // server sessions come from userPanel.GetUser / ActiveUser.GetSession
 	method    byte
 	tx        [][]c19plan // [session][stream]
 	rx        [][]c19plan
@@ -391,6 +393,7 @@ func c19genCase(r *rng, kind string, thorough bool) c19case {
 	}
 	cs.nsess, cs.nconn, cs.nstream = 1+r.intn(4), 1+r.intn(4), 1+r.intn(4)
 	cs.unordered = r.intn(2) == 0
+	cs.viaPanel = r.intn(2) == 0
 	switch r.intn(5) {
 	case 0: // below the largest message
 		cs.rxRate, cs.txRate = c19logRate(r, 1e3, 1.6e4), c19logRate(r, 1e3, 1.6e4)
@@ -435,9 +438,40 @@ func c19genCase(r *rng, kind string, thorough bool) c19case {
 func c19run(c *ctx, r *rng, cs c19case) (w *c19world, rxP, txP mux.Verif19Params) {
 	w = &c19world{byTag: map[string]int{}}
 	w.t0 = time.Now()
-	valve := mux.MakeValve(cs.rxRate, cs.txRate) // its buckets start at this very (virtual) instant
-	rxP, txP = mux.Verif19ValveParams(valve)
 	w.measuring = true
+	// the server-side sessions of the one user: either handed one mux.MakeValve(rx, tx) directly, or obtained the way
+	// the dispatcher obtains them -- panel.GetUser(uid) then user.GetSession(id, config) per session (the valve is
+	// then made inside GetUser).  Either way the buckets start at this very (virtual) instant.
+	keys := make([][32]byte, cs.nsess)
+	srvCfg := make([]mux.SessionConfig, cs.nsess)
+	ids := make([]uint32, cs.nsess)
+	for si := range keys {
+		copy(keys[si][:], r.bytes(32))
+		ob, _ := mux.MakeObfuscator(cs.method, keys[si])
+		srvCfg[si] = mux.SessionConfig{Obfuscator: ob, Unordered: cs.unordered, MsgOnWireSizeLimit: 16401, InactivityTimeout: 100000 * time.Hour}
+		ids[si] = uint32(si + 1)
+	}
+	srvSessions := make([]*mux.Session, cs.nsess)
+	if cs.viaPanel {
+		ss, valves, err := server.Verif19UserSessions(cs.rxRate, cs.txRate, []byte("0123456789abcdef"), ids, srvCfg)
+		if err != nil {
+			panic(err)
+		}
+		copy(srvSessions, ss)
+		lv, ok := valves[0].(*mux.LimitedValve)
+		if !ok {
+			c.o.V("C19 a limited user's session was not given a limiting valve", map[string]any{"rx": cs.rxRate, "tx": cs.txRate})
+			lv = mux.MakeValve(cs.rxRate, cs.txRate)
+		}
+		rxP, txP = mux.Verif19ValveParams(lv)
+	} else {
+		valve := mux.MakeValve(cs.rxRate, cs.txRate)
+		rxP, txP = mux.Verif19ValveParams(valve)
+		for si := range srvSessions {
+			srvCfg[si].Valve = valve
+			srvSessions[si] = mux.MakeSession(ids[si], srvCfg[si])
+		}
+	}
 	type sess struct {
 		srv, cli *mux.Session
 		sStreams map[uint32]*mux.Stream
@@ -448,14 +482,12 @@ func c19run(c *ctx, r *rng, cs c19case) (w *c19world, rxP, txP mux.Verif19Params
 	sessions := make([]*sess, cs.nsess)
 	serial := 0
 	for si := 0; si < cs.nsess; si++ {
-		var key [32]byte
-		copy(key[:], r.bytes(32))
-		obS, _ := mux.MakeObfuscator(cs.method, key)
+		key := keys[si]
 		obC, _ := mux.MakeObfuscator(cs.method, key)
 		obD, _ := mux.MakeObfuscator(cs.method, key)
 		se := &sess{sStreams: map[uint32]*mux.Stream{}, rxq: map[uint32]*c19streamRx{}}
-		se.srv = mux.MakeSession(uint32(si), mux.SessionConfig{Obfuscator: obS, Valve: valve, Unordered: cs.unordered, MsgOnWireSizeLimit: 16401, InactivityTimeout: 100000 * time.Hour})
-		se.cli = mux.MakeSession(uint32(si), mux.SessionConfig{Obfuscator: obC, Unordered: cs.unordered, MsgOnWireSizeLimit: 16401, InactivityTimeout: 100000 * time.Hour})
+		se.srv = srvSessions[si]
+		se.cli = mux.MakeSession(ids[si], mux.SessionConfig{Obfuscator: obC, Unordered: cs.unordered, MsgOnWireSizeLimit: 16401, InactivityTimeout: 100000 * time.Hour})
 		for k := 0; k < cs.nconn; k++ {
 			up, down := newC19queue(), newC19queue() // up: client -> server
 			sc := &c19conn{in: up, out: down}
@@ -790,7 +822,7 @@ func c19sub(c *ctx) {
 				kind = "backlog"
 			}
 			cs := c19genCase(r, kind, c.thorough())
-			key := fmt.Sprintf("b%d.c%d %s rx=%d tx=%d sess=%d conn=%d str=%d unordered=%v %s", batch, i, kind, cs.rxRate, cs.txRate, cs.nsess, cs.nconn, cs.nstream, cs.unordered, c14methods[cs.method])
+			key := fmt.Sprintf("b%d.c%d %s rx=%d tx=%d sess=%d conn=%d str=%d unordered=%v panel=%v %s", batch, i, kind, cs.rxRate, cs.txRate, cs.nsess, cs.nconn, cs.nstream, cs.unordered, cs.viaPanel, c14methods[cs.method])
 			w, rxP, txP := c19run(c, r, cs)
 			vt := c19monitor(c, "tx", cs, cs.txRate, txP, w.txEv, key)
 			vr := c19monitor(c, "rx", cs, cs.rxRate, rxP, w.rxEv, key)
